@@ -68,3 +68,34 @@ class VersionTables(Contract):
         out.append(_obl("VersionTables", "record-types-gfa2-only", sorted(x for x in T["specific"]["gfa2"] if x != "\n") == ["E", "F", "G", "O", "U"], {"table": T["specific"]["gfa2"]}))
         out.append(_obl("VersionTables", "record-types-generic", sorted(T["generic"]) == ["#", "H"] and T["different"] == ["S"], {"table": [T["generic"], T["different"]]}))
         return out
+
+
+@register
+class DefaultTagDatatypeTable(Contract):
+    fn = "gfapy/field/field.py::Field._get_default_gfa_tag_datatype"
+    props = ("C20",)
+    fragment = "T"
+    doc = ("the documented default datatype of a new tag, per class of Python value: the class table of the library holds exactly int->i, "
+           "float->f, dict->J, list->J, anything else->Z, in this order (the catch-all last); a list of integers or of floats is a numeric "
+           "array (B); the value classes of the library name their own datatype (NumericArray B, ByteArray H, FieldArray: that of its "
+           "elements); each entry is evaluated on the function itself with a representative value")
+
+    def custom(self, ctx, tier):
+        import builtins
+        g = ctx.gfapy
+        T = list(g.Field._default_tag_datatypes)
+        want = [(builtins.int, "i"), (builtins.float, "f"), (builtins.dict, "J"), (builtins.list, "J"), (builtins.object, "Z")]
+        out = [_obl("DefaultTagDatatypeTable", "class-table-as-documented", T == want, {"table": [(k.__name__, v) for k, v in T]})]
+        f = g.Field._get_default_gfa_tag_datatype
+        reps = [("int", 5, "i"), ("negative-int", -3, "i"), ("big-int", 2 ** 70, "i"), ("float", 1.5, "f"), ("float-zero", 0.0, "f"), ("str", "text", "Z"), ("one-char-str", "x", "Z"),
+                ("dict", {"a": 1}, "J"), ("empty-dict", {}, "J"), ("list-of-ints", [1, 2], "B"), ("list-of-floats", [1.5, 2.5], "B"), ("mixed-list", [1, 2.5], "J"),
+                ("list-of-str", ["a"], "J"), ("nested-list", [[1]], "J"), ("list-with-dict", [{"a": 1}], "J"),
+                ("NumericArray-int", g.NumericArray([1, 2]), "B"), ("NumericArray-float", g.NumericArray([1.5]), "B"), ("ByteArray", g.ByteArray([1, 2]), "H"),
+                ("FieldArray-of-i", g.FieldArray("i", [1, 2]), "i"), ("FieldArray-of-J", g.FieldArray("J", [[1]]), "J")]
+        for name, v, dt in reps:
+            try:
+                got = f(v)
+            except Exception as e:
+                got = "raises %s" % type(e).__name__
+            out.append(_obl("DefaultTagDatatypeTable", "default-of-%s-is-%s" % (name, dt), got == dt, {"value": repr(v), "got": got, "documented": dt}))
+        return out
